@@ -18,6 +18,8 @@ inductive Op (R : Type) where
   | realloc (node : String) (id : Nat) (answer : Option (R × R))
   | replace (node : String) (id : Nat)
   | setNode (n : String) (newCap : Option R)
+  | addNode (n : String) (c : R)
+  | removeNode (n : String)
 
 def runOp : Op R → M R Unit
   | .create a => create a
@@ -26,6 +28,8 @@ def runOp : Op R → M R Unit
   | .realloc n id a => realloc n id a
   | .replace n id => replace n id
   | .setNode n c => setNode n c
+  | .addNode n c => addNode n c
+  | .removeNode n => removeNode n
 
 /-- state after running `op` from `s` under fault plan `flt` -/
 def after (op : Op R) (flt : Option Addr) (s : State R) : State R := (run (runOp op) flt s).2.st
